@@ -194,6 +194,10 @@ func (s *TO1Server) rvRedirect(ctx context.Context, msg io.Reader) (*cose.Sign1T
 	if err := cbor.NewDecoder(msg).Decode(&token); err != nil {
 		return nil, fmt.Errorf("error decoding TO1.ProveToRV request: %w", err)
 	}
+	if token.Payload == nil {
+		captureErr(ctx, protocol.InvalidMessageErrCode, "")
+		return nil, fmt.Errorf("TO1.ProveToRV token has no payload")
+	}
 	var eat eatoken
 	if err := cbor.Unmarshal([]byte(token.Payload.Val), &eat); err != nil {
 		return nil, fmt.Errorf("error decoding TO1.ProveToRV request: %w", err)
